@@ -149,7 +149,7 @@ def gen_configs(rng, tier):
     q = tier == "quick"
     # grid part: every switch combination appears at least once (the configuration grid)
     for learn, call in itertools.product([False, True], repeat=2):
-        for _ in range(6 if q else 30):
+        for _ in range(12 if q else 40):
             cfgs.append(gen_fixed(rng, force=dict(learn=learn, call=call)))
     for t in (1, 2, 3, 4):
         for rank in range(0, t + 1):
@@ -157,14 +157,14 @@ def gen_configs(rng, tier):
                 for il in (True, False):
                     if sw[1] is False and rank > 0:
                         continue        # rank is irrelevant without task noise
-                    for _ in range(1 if q else 4):
+                    for _ in range(2 if q else 6):
                         cfgs.append(gen_multi(rng, tier, force=dict(t=t, rank=rank, sw=sw, il=il)))
-    for _ in range(30 if q else 300):
+    for _ in range(50 if q else 400):
         cfgs.append(gen_gauss(rng))
-    for _ in range(20 if q else 200):
+    for _ in range(40 if q else 300):
         cfgs.append(gen_multi(rng, tier))
     for wn in (False, True):
-        for _ in range(10 if q else 80):
+        for _ in range(15 if q else 100):
             cfgs.append(gen_list(rng, wn))
     return cfgs
 
@@ -505,14 +505,24 @@ def compare_list(out, c, res, r):
 
 
 def evaluate(out, cfgs, tag, count=True):
-    terms, spans = [], []
+    terms, spans, kept = [], [], []
     for c in cfgs:
-        if c["fam"] == "list":
-            terms.append(list_model_term(c)); spans.append((len(terms) - 1, 1, None, None))
-        else:
-            t, idx, B = model_terms(c)
-            spans.append((len(terms), len(t), idx, B))
-            terms += t
+        # building the likelihood / distribution already runs implementation code: never crash on it
+        try:
+            if c["fam"] == "list":
+                t, idx, B = [list_model_term(c)], None, None
+            else:
+                t, idx, B = model_terms(c)
+        except Exception as e:
+            k0 = ("likelihoodlist:" + ("noise-kwarg" if c["noises"] is not None else "plain")) if c["fam"] == "list" else key_of(c)
+            out.case(describe(c), True, label="construction-failed")
+            out.fail("%s:construction-exception:%s" % (k0, type(e).__name__),
+                     "constructing the likelihood / distribution raised %s: %s" % (type(e).__name__, str(e)[:200]), dict(cfg=c))
+            continue
+        spans.append((len(terms), len(t), idx, B))
+        terms += t
+        kept.append(c)
+    cfgs = kept
     results = C.coq_run_cases(tag, IMPORTS, RUN_DEF, terms, shard=max(8, (len(terms) + 15) // 16))
     for c, (s, k, idx, B) in zip(cfgs, spans):
         fam = c["fam"]
